@@ -240,6 +240,8 @@ pub enum Inst {
     I(IOp, Reg, Reg, i32),
     /// rd = imm20 << 12
     Lui(Reg, i32),
+    /// auipc rd, imm20: rd = pc + (imm20 << 12)
+    Auipc(Reg, i32),
     /// rd = 32-bit constant (the `li` pseudo-instruction)
     Li(Reg, i32),
     Load(LOp, Reg, Reg, i32),
@@ -262,6 +264,7 @@ impl Inst {
             Inst::R(op, rd, a, b) => format!("{} {}, {}, {}", op.name(), rn(*rd), rn(*a), rn(*b)),
             Inst::I(op, rd, a, imm) => format!("{} {}, {}, {}", op.name(), rn(*rd), rn(*a), imm),
             Inst::Lui(rd, imm) => format!("lui {}, {}", rn(*rd), imm),
+            Inst::Auipc(rd, imm) => format!("auipc {}, {}", rn(*rd), imm),
             Inst::Li(rd, imm) => format!("li {}, {}", rn(*rd), imm),
             Inst::Load(op, rd, b, imm) => format!("{} {}, {}({})", op.name(), rn(*rd), imm, rn(*b)),
             Inst::Store(op, v, b, imm) => format!("{} {}, {}({})", op.name(), rn(*v), imm, rn(*b)),
@@ -301,6 +304,7 @@ impl Inst {
             Inst::R(_, rd, _, _)
             | Inst::I(_, rd, _, _)
             | Inst::Lui(rd, _)
+            | Inst::Auipc(rd, _)
             | Inst::Li(rd, _)
             | Inst::Load(_, rd, _, _)
             | Inst::Jal(rd, _)
@@ -327,7 +331,7 @@ impl Inst {
             Inst::Branch(_, a, b, _) => vec![*a, *b],
             Inst::Jalr(_, rs, _) => vec![*rs],
             Inst::Csr(_, _, _, rs) => vec![*rs],
-            Inst::Lui(..) | Inst::Li(..) | Inst::Jal(..) | Inst::La(..) | Inst::Ecall
+            Inst::Lui(..) | Inst::Auipc(..) | Inst::Li(..) | Inst::Jal(..) | Inst::La(..) | Inst::Ecall
             | Inst::CsrI(..) => vec![],
         };
         let mut out = Vec::new();
@@ -856,6 +860,7 @@ pub fn step(img: &Image, m: &mut Machine, env: &mut Env) -> Result<StepInfo, Sto
             m.set(*rd, v);
         }
         Inst::Lui(rd, imm) => m.set(*rd, (*imm as u32) << 12),
+        Inst::Auipc(rd, imm) => m.set(*rd, (TEXT_BASE + 4 * idx as u32).wrapping_add((*imm as u32) << 12)),
         Inst::Li(rd, imm) => m.set(*rd, *imm as u32),
         Inst::Load(op, rd, b, imm) => {
             let a = m.get(*b).wrapping_add(*imm as u32);
